@@ -1262,8 +1262,8 @@ func ruleSharedState(pkgs []string) func(c *Ctx, r *Rep, tier string) {
 				}
 				var uses []use
 				for _, fn := range fns {
-					if fn.Name() == "init" && fn.Parent() == nil {
-						continue
+					if (fn.Name() == "init" || strings.HasPrefix(fn.Name(), "init#")) && fn.Parent() == nil {
+						continue // package initialisation, declared init functions included
 					}
 					fn := fn
 					allInstrs(fn, func(ins ssa.Instruction) {
@@ -1306,6 +1306,21 @@ func ruleSharedState(pkgs []string) func(c *Ctx, r *Rep, tier string) {
 										why = "an element is stored at " + c.Pos(st.Pos()) + " by code that any instance runs"
 									}
 								}
+							case *ssa.Slice:
+								// buf[:0] handed to append: the shared backing array is written
+								for _, r2 := range *y.Referrers() {
+									if cl, ok := r2.(*ssa.Call); ok {
+										if bi, ok := cl.Call.Value.(*ssa.Builtin); ok && (bi.Name() == "append" || bi.Name() == "copy") && len(cl.Call.Args) > 0 && cl.Call.Args[0] == ssa.Value(y) {
+											why = "its backing array is written through " + bi.Name() + " at " + c.Pos(cl.Pos()) + " by code that any caller runs: two results alive at once (a caller holding two, two goroutines) share it"
+										}
+									}
+								}
+							case *ssa.Call:
+								if bi, ok := y.Call.Value.(*ssa.Builtin); ok && (bi.Name() == "append" || bi.Name() == "copy") && len(y.Call.Args) > 0 && y.Call.Args[0] == ssa.Value(x) {
+									if _, isSl := x.Type().Underlying().(*types.Slice); isSl && bi.Name() == "copy" {
+										why = "its backing array is written through copy at " + c.Pos(y.Pos())
+									}
+								}
 							}
 						}
 					case *ssa.Call:
@@ -1321,7 +1336,13 @@ func ruleSharedState(pkgs []string) func(c *Ctx, r *Rep, tier string) {
 					case *ssa.Store:
 						why = "it is assigned at " + c.Pos(x.Pos()) + " outside package initialisation"
 					case *ssa.FieldAddr, *ssa.IndexAddr:
-						why = "a part of it is addressed at " + c.Pos(u.ins.Pos()) + " (it can be written there)"
+						// an element or field of the variable: read-only if the address is only loaded from
+						for _, ref := range *u.ins.(ssa.Value).Referrers() {
+							if ld, ok := ref.(*ssa.UnOp); ok && ld.Op == token.MUL {
+								continue
+							}
+							why = "a part of it is addressed at " + c.Pos(u.ins.Pos()) + " and the address is used for more than a load (it can be written there)"
+						}
 					default:
 						why = fmt.Sprintf("used by %T at %s: not understood", u.ins, c.Pos(u.ins.Pos()))
 					}
@@ -1400,7 +1421,36 @@ func ruleSharedState(pkgs []string) func(c *Ctx, r *Rep, tier string) {
 							}
 						}
 					}
-					if !getsClean && !putsClean {
+					// nothing made from a pooled object leaves with the caller: the object goes
+					// back to the pool (a deferred Put) and the next user writes over it
+					for _, gcall := range gets {
+						obj := ssa.Value(gcall)
+						for _, ref := range *gcall.Referrers() {
+							if ta, ok := ref.(*ssa.TypeAssert); ok {
+								obj = ta
+							}
+						}
+						if obj.Referrers() == nil {
+							continue
+						}
+						for _, ref := range *obj.Referrers() {
+							cl, ok := ref.(*ssa.Call)
+							if !ok || len(cl.Call.Args) == 0 || cl.Call.Args[0] != obj {
+								continue
+							}
+							switch cl.Type().Underlying().(type) {
+							case *types.Slice, *types.Pointer, *types.Map:
+							default:
+								continue
+							}
+							for _, r2 := range *cl.Referrers() {
+								if rt, ok := r2.(*ssa.Return); ok {
+									why = fmt.Sprintf("what %s returns at %s is backed by an object of the pool (%s of it): the object is handed back and the next call writes over what this caller still holds", c.FnName(cl.Parent()), c.Pos(rt.Pos()), calleeFullName(&cl.Call))
+								}
+							}
+						}
+					}
+					if why == "" && !getsClean && !putsClean {
 						why = fmt.Sprintf("objects of the pool go from one instance to the next as they were left (%d Get, %d Put; no Reset that dominates the uses of what is taken out, none before what is put in): whatever an instance left in them – the block a failed destination did not take – is the next instance's", len(gets), len(puts))
 					}
 				}
@@ -3117,4 +3167,85 @@ func seqLengthNonZeroAt(c *Ctx, fn *ssa.Function, at *ssa.BasicBlock) bool {
 		}
 	}
 	return false
+}
+
+// ---- STORE-AS-READ -------------------------------------------------------------
+//
+// The header's line parsers keep the text of a field as it stands: what was
+// written is what is read, so what is read is what will be written again. A
+// parser that leaves a field out because of what its value is – without refusing
+// the line – writes another text than it read (fifteenth-round seed C07-p:
+// "FO:*" taken for "no flow order", although NewReadGroup keeps "*" and String
+// writes it: the header parses to one that serialises five bytes shorter).
+//
+// Decided in readGroupLine, programLine and referenceLine: no store of a field's
+// text into the item being built is dominated by an edge of a comparison of that
+// same text with a constant, unless the other edge of the comparison refuses the
+// line (returns an error).
+func ruleStoreAsRead(c *Ctx, r *Rep, tier string) {
+	rule := "STORE-AS-READ"
+	for _, name := range []string{"readGroupLine", "programLine", "referenceLine"} {
+		fn := c.Func("sam", name)
+		r.Instance(rule, 1)
+		why := ""
+		n := 0
+		allInstrs(fn, func(ins ssa.Instruction) {
+			st, ok := ins.(*ssa.Store)
+			if !ok {
+				return
+			}
+			if _, isFA := st.Addr.(*ssa.FieldAddr); !isFA {
+				return
+			}
+			if b, ok := st.Val.Type().Underlying().(*types.Basic); !ok || b.Kind() != types.String {
+				return
+			}
+			if _, isK := st.Val.(*ssa.Const); isK {
+				return
+			}
+			n++
+			for _, b := range fn.Blocks {
+				ifi := ifOf(b)
+				if ifi == nil || b.Succs[0] == b.Succs[1] {
+					continue
+				}
+				bo, ok := ifi.Cond.(*ssa.BinOp)
+				if !ok || (bo.Op != token.EQL && bo.Op != token.NEQ) {
+					continue
+				}
+				var other ssa.Value
+				switch {
+				case bo.X == st.Val:
+					other = bo.Y
+				case bo.Y == st.Val:
+					other = bo.X
+				default:
+					continue
+				}
+				if _, isK := other.(*ssa.Const); !isK {
+					continue
+				}
+				for e := 0; e < 2; e++ {
+					if !dominatedByEdge(fn, b, e, st.Block()) {
+						continue
+					}
+					// the other edge refuses the line?
+					refuses := false
+					if _, reach := pathTo(Loc{b.Succs[1-e], -1}, func(x ssa.Instruction) bool {
+						rt, ok := x.(*ssa.Return)
+						return ok && len(rt.Results) > 0 && isNilConst(retValue(rt, len(rt.Results)-1))
+					}, nil, nil); !reach {
+						refuses = true
+					}
+					if !refuses {
+						why = fmt.Sprintf("the text of a field is stored at %s only where it differs from (or equals) the constant %s, and the line is accepted either way: a value the writer writes is dropped by the reader – the header does not serialise to the text it was parsed from", c.Pos(st.Pos()), symKey(other))
+					}
+				}
+			}
+		})
+		if n == 0 {
+			why = "no store of a field's text found: the rule's anchor moved (undecided)"
+		}
+		r.Check(why == "", rule, "sam."+name+"#fields-kept", c.Pos(fn.Pos()), fmt.Sprintf("%d field texts stored whatever their value", n), why)
+	}
 }
